@@ -30,7 +30,9 @@ def als_cases(draw, tier):
     d = len(n)
     m = draw(st.integers(max(n), 40))
     case = {"n": n, "m": m, "dseed": draw(gen.seeds),
-            "Y0": draw(gen.tt_specs(shape=n, r_max=3, families=("gauss", "float"), rank_families=("rank1", "uniform", "uniform", "ragged", "ragged"))),
+            "Y0": draw(gen.tt_specs(shape=n, r_max=3, families=("gauss", "float", "smallint"), rank_families=("rank1", "uniform", "uniform", "ragged", "ragged"))),
+            # an initial approximation written down by hand (ones, small integers) may be stored in integer arrays
+            "y0_dtype": draw(st.sampled_from(["float64", "int64", "int32", "mixed"])),
             "target": draw(st.sampled_from(["tt", "random", "const"])),
             "lamb10": draw(st.sampled_from([-6, -4, -3, -2, -1, 0, 1])), "weights": draw(st.booleans()),
             "wkind": draw(st.sampled_from(["positive", "positive", "some_zero", "slice_zero"])), "wcore": draw(st.sampled_from([1, 1, 0, d - 1])),
@@ -127,13 +129,23 @@ def rel_diff(Ya, Yb):
     return max(fro(Fa - Fb) / max(fro(Fb), 1e-300), core)
 
 
+def cast_init(Y0, spec, dt, ctx):
+    """integer-valued initial cores stored as integer arrays (all of them, or every other one)"""
+    if dt == "float64" or spec["fam"] != "smallint" or not all(np.array_equal(G, np.round(G)) for G in Y0):
+        return Y0
+    ctx.label("init_stored_as:" + dt)
+    if dt == "mixed":
+        return [G.astype(np.int64) if k % 2 == 0 else G for k, G in enumerate(Y0)]
+    return [G.astype(dt) for G in Y0]
+
+
 def prop_als(case, ctx):
     n = case["n"]
     d = len(n)
     I, y, w, single = make_data(case)
     m = len(I)
     lamb = 10.0 ** case["lamb10"]
-    Y0 = gen.build_tt(case["Y0"])
+    Y0 = cast_init(gen.build_tt(case["Y0"]), case["Y0"], case.get("y0_dtype", "float64"), ctx)
     nswp = case["nswp"]
     ctx.label(f"yscale=1e{case.get('yscale10', 0)}")
     ctx.label("layout:" + case["layout"], ("weights:" + case.get("wkind", "positive")) if w is not None else "noweights", f"lamb=1e{case['lamb10']}", f"d={d}", "target:" + case["target"])
@@ -293,7 +305,8 @@ def func_cases(draw, tier):
     d = draw(st.integers(2, 4))
     nn = draw(st.integers(2, 5))
     return {"d": d, "n": nn, "m": draw(st.integers(3, 40)), "dseed": draw(gen.seeds),
-            "A0": draw(gen.tt_specs(shape=[nn] * d, r_max=3, families=("gauss",), rank_families=("rank1", "uniform", "ragged"))),
+            "A0": draw(gen.tt_specs(shape=[nn] * d, r_max=3, families=("gauss", "gauss", "smallint"), rank_families=("rank1", "uniform", "ragged"))),
+            "y0_dtype": draw(st.sampled_from(["float64", "int64", "int32", "mixed"])),
             "lamb10": draw(st.sampled_from([-4, -3, -2, -1, 0, 1])), "nswp": draw(st.integers(1, 3)), "a": draw(st.integers(1, 2)),
             "box": draw(st.sampled_from([[-1.0, 1.0], [0.0, 2.0], [-3.0, 0.5], [10.0, 11.0]]))}
 
@@ -339,7 +352,7 @@ def prop_func(case, ctx):
     X = rng.uniform(a, b, size=(m, d))
     y = np.sin(X.sum(axis=1)) + 0.1 * rng.normal(size=m)
     lamb = 10.0 ** case["lamb10"]
-    A0 = gen.build_tt(case["A0"])
+    A0 = cast_init(gen.build_tt(case["A0"]), case["A0"], case.get("y0_dtype", "float64"), ctx)
     nswp = case["nswp"]
     ctx.label(f"d={d}", f"n={nn}", f"lamb=1e{case['lamb10']}")
     ctx.nontrivial(max(case["A0"]["r"]) >= 2)
